@@ -37,7 +37,7 @@ pub fn c04_q_step() {
     crate::show!("C04 step mods={:?} mode={:?} key={:?} state={:?} after={:?} want={:?}", m, h, k, s, kb.get_modifiers(), want);
     assert!(*kb.get_modifiers() == want, "C04: modifier record after an event differs from the event history");
     if want == m {
-        assert!(*kb.verif_stages().2 == before, "C04: an event that changes no modifier changed the decoder");
+        assert!(*kb.verif_stages().2 == before, "C04 closure: an event that changes no modifier changed the decoder state (state identity)");
     }
     assert!(kb.get_ctrl_handling() == h, "C04: an event changed the Ctrl handling mode");
     kani::cover!(want != m && s == KeyState::Up);
